@@ -28,10 +28,7 @@ func verifQueryValue() string {
 		}
 		return string(w)
 	}
-	max := 3
-	if thorough() {
-		max = 4
-	}
+	max := 3 // 14^3 values; 4 bytes (38k values x typing paths) did not finish in 15 minutes
 	v := nondetBytes("value", max)
 	for _, b := range v {
 		in := false
